@@ -82,11 +82,12 @@ def cooccurrence(quantized_image, labels, scale_i=3, scale_j=0):
         labels_b = labels[scale_i:, :scale_j]
     equilabel = (labels_a == labels_b) & (labels_a > 0)
     if np.any(equilabel):
-
+        # the quantized image is int8: compute the bin index in a wide integer type
+        nlevels = int(nlevels)
         Q = (
             nlevels * nlevels * (labels_ab[equilabel] - 1)
-            + nlevels * image_a[equilabel]
-            + image_b[equilabel]
+            + nlevels * image_a[equilabel].astype(int)
+            + image_b[equilabel].astype(int)
         )
         R = np.bincount(Q)
         if R.size != nobjects * nlevels * nlevels:
